@@ -108,7 +108,9 @@ CLAIMED = {
              "C01_desc_plain_roundtrip, C01_desc_weight_roundtrip (for every weight whose printed form reads back: decidable NumTextOK), C01_desc_empty_roundtrip "
              "(find / rfind / count / negative-index slicing / strip / split lemmas, int(str(n)) = n), C01_desc_list_roundtrip, and of mixture specifiers: "
              "C01_mixture_abs_roundtrip / C01_mixture_rel_roundtrip (.|m| and .|p%| read back as m and p for every number whose printed form satisfies the decidable "
-             "MixNumOK, signed-exponent forms such as 2.5e-05 included); C02_token_lossless gives the token level its raw-text half. After a generate() call the object "
+             "MixNumOK, signed-exponent forms such as 2.5e-05 included) and of distributions: C01_distribution_roundtrip (|gauss(a, b)|, |log_normal(a, b)|, |schulz_zimm(a, b)| "
+             "read back as the same family and parameters through the substring dispatch, strip, startswith and the model of ast.literal_eval; decidable DistNumOK on the printed "
+             "parameters); C02_token_lossless gives the token level its raw-text half. After a generate() call the object "
              "still prints its canonical string. The fixed-point, same-object, layout-independence, no-bar, reparse and same-seed-same-molecule "
              "clauses are decided on the implementation by the round-trip oracle over all archetypes x 3 layouts, systems and the documented strings.",
         note="Partial: beyond bond descriptors and mixture specifiers (tokens, objects, molecules) the fixed-point / same-object clauses are not theorems on characters "
@@ -121,7 +123,8 @@ CLAIMED = {
              "list total = sum), C02_token_lossless (for every accepted token text, any length and nesting: the parsed element list spells the stripped text again "
              "character for character once each descriptor element is replaced by the text it was cut from, that text is what the descriptor parser was run on, "
              "descriptors numbered in written order, atom list = atom elements in written order: the scanner and the descriptor cutting lose, duplicate and reorder "
-             "nothing), C02_print_is_raw_with_canonical_descriptors. The character-level model of token.py / bond.py / stochastic.py / molecule.py / system.py is compared with the code field by "
+             "nothing), C02_print_is_raw_with_canonical_descriptors, C02_descriptor_numbering (in every accepted stochastic object the k-th descriptor in the order repeat units then "
+             "end groups carries descriptor_num = k, and every transition list has one entry per such descriptor: list entry j addresses the descriptor at position j). The character-level model of token.py / bond.py / stochastic.py / molecule.py / system.py is compared with the code field by "
              "field on strings printed from ASTs by an independent printer; the oracle compares every parsed field with what the AST denotes and with RDKit's own "
              "reading of the token in which descriptors are dummy atoms.",
         note="The splitting of stochastic objects / molecules / systems and the number syntax are covered by the correspondence, not by theorems. Tokens with an explicit [H] inside a multi-atom token "
